@@ -310,34 +310,34 @@ class Monitors:
             if ev.exc is None:
                 ctx.violation('accepted_bad_params',
                               f'{spec_str(spec)} accepted parameter names with {how}: '
-                              f'missing={sorted(missing)} extra={sorted(extra)}', case, how=how, kind=kind)
+                              f'missing={sorted(missing)} extra={sorted(extra)}', case, how=how, model=kind)
             elif isinstance(ev.exc, REFUSAL_TYPES):
                 ctx.event('refusal.' + how)
                 ctx.count('refusal_type:' + type(ev.exc).__name__)
             else:
                 ctx.violation('refusal_wrong_type',
                               f'{spec_str(spec)} refused {how} names with {type(ev.exc).__name__}: {ev.exc}',
-                              case, how=how, kind=kind, exc=type(ev.exc).__name__)
+                              case, how=how, model=kind, exc=type(ev.exc).__name__)
             return
         # in-domain?  (raises OutOfDomain before any verdict, also for the raised case)
         exp, tol, unit = expected(spec, x, params)
         if ev.exc is not None:
             ctx.violation('raised_on_valid',
                           f'{spec_str(spec)} raised {type(ev.exc).__name__}: {ev.exc} for a complete parameter set',
-                          case, kind=kind, exc=type(ev.exc).__name__, prefix_class=prefix_class(spec['prefix']))
+                          case, model=kind, exc=type(ev.exc).__name__, prefix_class=prefix_class(spec['prefix']))
             return
         res = ev.result
         if not isinstance(res, sc.Variable):
-            ctx.violation('result_type', f'{spec_str(spec)} returned {type(res).__name__}', case, kind=kind)
+            ctx.violation('result_type', f'{spec_str(spec)} returned {type(res).__name__}', case, model=kind)
             return
         ctx.event('unit.' + kind)
         if res.unit != unit:
             ctx.violation('wrong_unit', f'{spec_str(spec)}: result unit {res.unit}, expected {unit}', case,
-                          kind=kind)
+                          model=kind)
             return
         if tuple(res.dims) != tuple(x.dims) or tuple(res.shape) != tuple(x.shape):
             ctx.violation('wrong_shape', f'{spec_str(spec)}: result dims {res.dims}{res.shape} for x '
-                          f'{x.dims}{x.shape}', case, kind=kind)
+                          f'{x.dims}{x.shape}', case, model=kind)
             return
         got = np.asarray(res.values, dtype=np.float64)
         self._compare(got, exp, tol, x, 'pointwise.' + kind, case, kind)
@@ -351,7 +351,7 @@ class Monitors:
         if got.size == 0:
             return True
         if not np.all(np.isfinite(got)):
-            ctx.violation('non_finite', f'{name}: non-finite value for finite in-domain input', case, kind=kind)
+            ctx.violation('non_finite', f'{name}: non-finite value for finite in-domain input', case, model=kind)
             return False
         err = np.abs(got.astype(LD) - exp)
         ratio = err / tol
@@ -368,7 +368,7 @@ class Monitors:
             rel = float(np.ravel(err)[i] / max(abs(np.ravel(exp)[i]), LD('1e-4000')))
             ctx.violation('value', f'{name}: {case["spec"]} differs from the analytic definition by '
                           f'{rel:.3g} relative ({worst:.3g} x bound) at x={xv[i]!r}', case,
-                          kind=kind, layer='pointwise')
+                          model=kind, layer='pointwise')
             return False
         return True
 
@@ -389,7 +389,7 @@ class Monitors:
             ctx.violation('composite_routing',
                           f'{spec_str(spec)}: sub-calls observed with parameter names '
                           f'{[sorted(c.args["params"]) for c in subs]}, expected {sorted(ln)} and {sorted(rn)}',
-                          case, kind='comp', mechanism='names')
+                          case, model='comp', mechanism='names')
             return
         le, re_ = left[0], right[0]
         for sub in (le, re_):
@@ -397,7 +397,7 @@ class Monitors:
                 if not sc.identical(v, params[p + k]):
                     ctx.violation('composite_routing',
                                   f'{spec_str(spec)}: part received {k}={v.value!r}, composite was given '
-                                  f'{p + k}={params[p + k].value!r}', case, kind='comp', mechanism='values')
+                                  f'{p + k}={params[p + k].value!r}', case, model='comp', mechanism='values')
                     return
         if le.exc is None and re_.exc is None:
             lv = np.asarray(le.result.values, dtype=np.float64).astype(LD)
@@ -410,7 +410,7 @@ class Monitors:
             ctx.dev('composite_sum [fraction of bound]', worst)
             if worst > 1.0:
                 ctx.violation('composite_sum', f'{spec_str(spec)}: result differs from left + right of the '
-                              f'observed sub-calls ({worst:.3g} x bound)', case, kind='comp')
+                              f'observed sub-calls ({worst:.3g} x bound)', case, model='comp')
         self.judge_call(le, spec['left'])
         self.judge_call(re_, spec['right'])
 
@@ -431,7 +431,7 @@ class Monitors:
                         'x': describe_x(x)}
                 if len(keys) < 2 or keys != set(base_names(spec)):
                     ctx.violation('call_names_not_unprefixed',
-                                  f'{kind}._call received names {sorted(keys)}', case, kind=kind,
+                                  f'{kind}._call received names {sorted(keys)}', case, model=kind,
                                   mechanism='prefix_strip')
                     return
                 exp, tol, unit = expected(spec, x, params)
@@ -468,7 +468,7 @@ class Monitors:
                     else:
                         ctx.violation('fwhm_unsupported', f'{spec_str(spec)}.fwhm: expected NotImplementedError, '
                                       f'got {type(ev.exc).__name__ if ev.exc else "a result"}', case,
-                                      kind=spec['kind'])
+                                      model=spec['kind'])
                     return
                 if set(params) != spec_names(spec):
                     return  # the property says nothing about fwhm with other names
@@ -476,15 +476,15 @@ class Monitors:
                 _val(scale)
                 if ev.exc is not None:
                     ctx.violation('fwhm_raised', f'{spec_str(spec)}.fwhm raised {type(ev.exc).__name__}: {ev.exc}',
-                                  case, kind=kind, prefix_class=prefix_class(spec['prefix']))
+                                  case, model=kind, prefix_class=prefix_class(spec['prefix']))
                     return
                 w = ev.result
                 ctx.event('fwhm.' + kind)
                 if not isinstance(w, sc.Variable) or w.ndim != 0 or w.unit != scale.unit:
                     ctx.violation('fwhm_unit', f'{spec_str(spec)}.fwhm returned {w!r}, expected a scalar in '
-                                  f'{scale.unit}', case, kind=kind)
+                                  f'{scale.unit}', case, model=kind)
                 elif not (np.isfinite(w.value) and w.value > 0):
-                    ctx.violation('fwhm_value', f'{spec_str(spec)}.fwhm = {w.value!r}', case, kind=kind)
+                    ctx.violation('fwhm_value', f'{spec_str(spec)}.fwhm = {w.value!r}', case, model=kind)
             except OutOfDomain:
                 ctx.count('out_of_domain:fwhm')
             except Exception:  # noqa: BLE001
@@ -502,7 +502,7 @@ class Monitors:
         if got != set(spec_names(spec)):
             self.ctx.violation('guess_names', f'{spec_str(spec)}.guess returned names {sorted(got)}, the model '
                                f'accepts {sorted(spec_names(spec))}', {'spec': spec_str(spec)},
-                               kind=spec['kind'], where='guess')
+                               model=spec['kind'], where='guess')
 
     def on_bounds(self, ev):
         if ev.depth != 0 or ev.exc is not None:
@@ -515,7 +515,7 @@ class Monitors:
         if not got <= set(spec_names(spec)):
             self.ctx.violation('bounds_names', f'{spec_str(spec)}.param_bounds has names {sorted(got)} that are '
                                f'not parameters {sorted(spec_names(spec))}', {'spec': spec_str(spec)},
-                               kind=spec['kind'], where='param_bounds')
+                               model=spec['kind'], where='param_bounds')
 
     def install(self, tr, M):
         tr.watch(M.Model.__call__, 'call', on_return=self.on_call)
@@ -674,7 +674,7 @@ def check_prefix_bitwise(ctx, results, what, case, kind):
         if bits(r) != bits(ref):
             ctx.violation('prefix_dependence',
                           f'{what} of {kind} differs between prefix {ref_p!r} and prefix {p!r}', case,
-                          kind=kind, what=what, prefix_class=prefix_class(p))
+                          model=kind, what=what, prefix_class=prefix_class(p))
             return
 
 
@@ -728,7 +728,7 @@ def peak_identities(rng, ctx, model, prefix, kind, vals, pv, xunit, case):
         ctx.dev('normalisation.' + kind + ' [relative]', dev)
         if not dev <= TOL_NORM:
             ctx.violation('normalisation', f'{kind}: integral = {float(integral)!r}, amplitude = {amp!r} '
-                          f'(relative defect {dev:.3g} > {TOL_NORM:g})', case, kind=kind, layer='identity')
+                          f'(relative defect {dev:.3g} > {TOL_NORM:g})', case, model=kind, layer='identity')
     # -- symmetry on exactly representable pairs
     xp, xm = exact_pairs(rng, loc, scale, 8)
     if xp.size == 0:
@@ -751,7 +751,7 @@ def peak_identities(rng, ctx, model, prefix, kind, vals, pv, xunit, case):
                 c['pair'] = {'xp_hex': float(xp[i]).hex(), 'xm_hex': float(xm[i]).hex(),
                              'f_xp': repr(fp[i]), 'f_xm': repr(fm[i])}
                 ctx.violation('asymmetry', f'{kind}: f(loc+d) = {float(fp[i])!r} but f(loc-d) = {float(fm[i])!r}',
-                              c, kind=kind, layer='identity')
+                              c, model=kind, layer='identity')
     # -- half maximum at loc +- fwhm/2 with the fwhm the model reports
     try:
         w = model.fwhm(params)
@@ -774,7 +774,7 @@ def peak_identities(rng, ctx, model, prefix, kind, vals, pv, xunit, case):
                                 'f_minus': repr(fv[2])}
                 ctx.violation('half_maximum', f'{kind}: f(loc +- fwhm/2)/f(loc) = {float(fv[1] / fv[0])!r}, '
                               f'{float(fv[2] / fv[0])!r} with the reported fwhm {w.value!r} (scale {scale!r}); '
-                              f'off by {units:.3g} eps(1+|loc|/scale)', c, kind=kind, layer='identity')
+                              f'off by {units:.3g} eps(1+|loc|/scale)', c, model=kind, layer='identity')
 
 
 def check_guess_bounds(rng, ctx, models, y_of, kind, case):
@@ -798,11 +798,11 @@ def check_guess_bounds(rng, ctx, models, y_of, kind, case):
         safe_call(model, data.coords[data.dim], g)
     ctx.event('prefix_bitwise.guess')
     if any(g != gs[0] for g in gs[1:]):
-        ctx.violation('prefix_dependence', f'guess of {kind} differs between prefixes', case, kind=kind,
+        ctx.violation('prefix_dependence', f'guess of {kind} differs between prefixes', case, model=kind,
                       what='guess', prefix_class='-')
     ctx.event('prefix_bitwise.param_bounds')
     if any(b != bs[0] for b in bs[1:]):
-        ctx.violation('prefix_dependence', f'param_bounds of {kind} differs between prefixes', case, kind=kind,
+        ctx.violation('prefix_dependence', f'param_bounds of {kind} differs between prefixes', case, model=kind,
                       what='param_bounds', prefix_class='-')
 
 
